@@ -510,4 +510,45 @@ Proof.
   apply (validate_of_name text (entry_sym e) Hp). apply (known_key_entry e He).
 Qed.
 
+(* strict parsing gives the same for a name of a license that is not an exception *)
+Theorem accepted_name_resolves_strict e n v text : In e T -> In (n, v) (entry_adds O e) -> lwords O n <> [] ->
+  lwords O text = lwords O n -> eexc e = false ->
+  parse O T false true false text = Ok (Some (Lit (Plain (entry_sym e)))).
+Proof.
+  intros He Hn Hne Et Hx. destruct (accepted_name_stored e n v He Hn Hne) as [sp0 Es]. rewrite <- Et in Es.
+  apply (recognise_alone_strict O T text sp0 (entry_sym e)); [|exact Hx].
+  unfold build_trie. cbn [t_make_automaton outs].
+  change (add_all O t_empty (keyword_adds ++ flat_map (entry_adds O) T))
+    with (add_ops O t_empty (keyword_adds ++ flat_map (entry_adds O) T)).
+  rewrite (get_out_add_ops O _ t_empty _ eq_refl). rewrite Es. reflexivity.
+Qed.
+
 End AcceptedNames.
+
+(* ---- C14 without the premise on the keys: the keys of a table that went through LicenseSymbol() are never empty ---- *)
+Section CtorDecides.
+Variable O : oracle.
+Hypothesis sp_is_space : is_space O 32%N = true.
+Hypothesis lower_space : forall c, is_space O c = true -> lower_ch O c = [c].
+Hypothesis lower_nospace : forall c, is_space O c = false -> lower_ch O c <> [] /\ nospace O (lower_ch O c).
+
+Lemma valid_key_keyl_nonempty e : mk_key O (ekey e) = Ok (ekey e) -> keyl O e <> [].
+Proof.
+  intro Hk. destruct (proj1 (mk_key_iff O (ekey e) (ekey e)) Hk) as [[Kne _] Enorm].
+  set (ws := split_ws O (strip O (ekey e))) in *.
+  assert (Hws : Forall (word O) ws) by apply split_words.
+  assert (Ek : ekey e = join_sp ws) by exact Enorm.
+  assert (Wne : ws <> []) by (intro C; rewrite C in Ek; cbn in Ek; contradiction).
+  unfold keyl. rewrite Ek, (strip_join O ws Hws). rewrite (lower_join O sp_is_space lower_space). apply (join_sp_nonempty O).
+  - apply Forall_forall. intros w Hw. apply in_map_iff in Hw as [w0 [<- Hw0]]. rewrite Forall_forall in Hws.
+    apply (lower_word O lower_nospace w0 (Hws w0 Hw0)).
+  - destruct ws; [contradiction | discriminate].
+Qed.
+
+Theorem ctor_decides raw T : as_symbols O raw = Ok T ->
+  (new_licensing O raw = ValueErr <-> ambiguous O T) /\ (new_licensing O raw = Ok T <-> ~ ambiguous O T).
+Proof.
+  intro HA. apply (ctor_iff O raw T HA). intros e He. apply valid_key_keyl_nonempty. apply (as_symbols_keys O sp_is_space raw T HA e He).
+Qed.
+
+End CtorDecides.
